@@ -11,28 +11,31 @@ INITIALS = [
 ]
 
 
-def make_alphabet(tier):
-    qtys = (2, -2, 3, -3, 5, -5)
+QTYS = (2, -2, 3, -3, 5, -5)
 
-    def alphabet(m):
-        evs = []
-        for a in ('A', 'B'):
-            for q in qtys:
-                evs.append(('submit', '1', a, q))
-        evs += [('submit', '2', 'B', 3), ('submit', '2', 'B', -3)]
-        ticks = {m.clock}
-        if m.clock + 1 < len(bm.INSTANTS):
-            ticks.add(m.clock + 1)
-        j = bm.next_open(m.clock)
-        if j is not None:
-            ticks.add(j)
-        evs += [('tick', j) for j in sorted(ticks)]
-        evs += [('quotes', 0), ('quotes', 1), ('quotes', 2)]
-        for a in ('A', 'B'):
-            for px in ('9.5', '12.25'):
-                evs.append(('mark', '1', a, px))
-        evs.append(('mark', '2', 'B', '12.25'))
-        return evs
+
+def alphabet(m):
+    evs = []
+    for a in ('A', 'B'):
+        for q in QTYS:
+            evs.append(('submit', '1', a, q))
+    evs += [('submit', '2', 'B', 3), ('submit', '2', 'B', -3)]
+    ticks = {m.clock}
+    if m.clock + 1 < len(bm.INSTANTS):
+        ticks.add(m.clock + 1)
+    j = bm.next_open(m.clock)
+    if j is not None:
+        ticks.add(j)
+    evs += [('tick', j) for j in sorted(ticks)]
+    evs += [('quotes', 0), ('quotes', 1), ('quotes', 2)]
+    for a in ('A', 'B'):
+        for px in ('9.5', '12.25'):
+            evs.append(('mark', '1', a, px))
+    evs.append(('mark', '2', 'B', '12.25'))
+    return evs
+
+
+def make_alphabet(tier):
     return alphabet
 
 
@@ -59,3 +62,115 @@ def replay(case):
 
 def minimise(case, clause):
     return bm.minimise_broker(case, clause, 'C02.')
+
+
+# ------------------------------------------------------------------------------------------
+# part 2: the portfolio-level seam (Portfolio.transact_asset / update_market_value_of_asset with
+# explorer-chosen fills, prices, commissions) as a complete tree - close to exactly zero, re-open
+# and flip in one fill are reachable within two events
+# ------------------------------------------------------------------------------------------
+def _pf_tree(args):
+    from . import c03
+    from ..brokermachine import F, close
+    tier, prefix, depth = args
+    evs = c03.pf_alphabet(tier)
+    viols, n, shapes = [], 0, set()
+
+    def check(port, refs, cash, hist):
+        fails = []
+        d = port.portfolio_to_dict()
+        held = {a: r for a, r in refs.items() if r.net() != 0}
+        if set(d) != set(held):
+            fails.append({'clause': 'C02.holdings_set', 'detail': {'impl': sorted(d), 'ref': sorted(held), 'history': hist}})
+            return fails
+        mv = 0
+        for a, r in held.items():
+            if not close(d[a]['quantity'], r.net()):
+                fails.append({'clause': 'C02.quantity', 'detail': {'asset': a, 'impl': d[a]['quantity'], 'ref': r.net(),
+                                                                   'history': hist}})
+            want = r.net() * r.price
+            mv += want
+            if not close(d[a]['market_value'], want):
+                fails.append({'clause': 'C02.market_value', 'detail': {'asset': a, 'impl': d[a]['market_value'],
+                                                                       'ref': float(want), 'history': hist}})
+        if not close(port.total_market_value, mv):
+            fails.append({'clause': 'C02.total_market_value', 'detail': {'impl': port.total_market_value, 'ref': float(mv),
+                                                                         'history': hist}})
+        if not close(port.total_equity, mv + cash):
+            fails.append({'clause': 'C02.total_equity', 'detail': {'impl': port.total_equity, 'ref': float(mv + cash),
+                                                                   'history': hist}})
+        return fails
+
+    def cash_after(cash, ev):
+        if ev[0] == 'fill':
+            return cash - (F(ev[3]) * ev[2] + F(ev[4]))
+        return cash
+    port, refs, cash = c03.new_portfolio(), {}, F('100000')
+    for i, ev in enumerate(prefix):
+        port, refs, _ = c03.apply_portfolio(port, refs, ev, i)
+        cash = cash_after(cash, ev)
+    stack = [(port, refs, cash, tuple(prefix))]
+    while stack:
+        port, refs, cash, hist = stack.pop()
+        n += 1
+        hl = [list(e) for e in hist]
+        fails = check(port, refs, cash, hl)
+        for f in fails:
+            f['case'] = {'harness': 'portfolio_tree', 'history': hl}
+            viols.append(f)
+        if fails:
+            if len(viols) > 10:
+                break
+            continue
+        shapes.add(tuple(sorted((a, (r.net() > 0) - (r.net() < 0)) for a, r in refs.items())))
+        if len(hist) - len(prefix) >= depth:
+            continue
+        for ev in evs:
+            p2, r2, _ = c03.apply_portfolio(port, refs, ev, len(hist))
+            stack.append((p2, r2, cash_after(cash, ev), hist + (ev,)))
+    return {'viols': viols[:10], 'execs': n, 'evals': n, 'nontrivial': True, 'outcome': None,
+            'sets': {'portfolio_tree_shapes': shapes}, 'counters': {'portfolio_tree_states': n}}
+
+
+def _pf_items(tier):
+    import itertools
+    from . import c03
+    depth = 3 if tier == 'quick' else 4
+    evs = c03.pf_alphabet(tier)
+    items = [(tier, (), 0)]
+    for pre in evs:
+        items.append((tier, (pre,), depth - 1))
+    return items
+
+
+_run_broker = run
+
+
+def run(tier, res, is_known):            # noqa: F811  (extends the broker-level search above)
+    from ..core import product
+    _run_broker(tier, res, is_known)
+    if any(not is_known(v) for v in res.violations):
+        return
+    product(_pf_tree, _pf_items(tier), res, is_known, label='portfolio-level tree', chunk=1)
+    res.extra['portfolio_tree_shapes'] = len(res.extra.get('portfolio_tree_shapes', ()))
+    res.rule += ('; part 2: complete tree of Portfolio.transact_asset / update_market_value_of_asset histories (23 events, '
+                 'depth 3-4) with the same holdings oracle')
+
+
+_replay_broker = replay
+
+
+def replay(case):                         # noqa: F811
+    if case.get('harness') != 'portfolio_tree':
+        return _replay_broker(case)
+    out = _pf_tree(('quick', tuple(tuple(e) for e in case['history']), 0))
+    return out['viols']
+
+
+_minimise_broker = minimise
+
+
+def minimise(case, clause):               # noqa: F811
+    if case.get('harness') != 'portfolio_tree':
+        return _minimise_broker(case, clause)
+    return case
